@@ -100,7 +100,7 @@ Section WithClen.
     b_last : s_last st = last (map fst cur) 0;
     b_queue : all_ok (i_files im) (s_queue st) /\ meta_ok (s_queue st);
     b_clean : FClean (i_files im) (old ++ live_tgs segs cur);
-    b_meta : Forall (fun t => meta_ok (snd t)) (live_tgs segs cur);
+    b_metas : Forall (fun t => meta_ok (snd t)) (live_tgs segs cur);
     b_cst : c = {| cs_pending := None; cs_all := old ++ live_tgs segs cur; cs_cur := cur |};
     b_nonew : no_pnew (i_files im)
   }.
